@@ -209,6 +209,9 @@ func H_C14_Data(v *verifrt.T) {
 	for _, f := range v.Files(root) {
 		ok := strings.HasPrefix(f, "stage/src/") || strings.HasPrefix(f, "final/src/") || f == "secret" || f == "stage/other/x.part"
 		v.Assert(ok, "C14.O1 a data request creates nothing outside the stage and final directories of its source")
+		if strings.HasPrefix(f, "final/src/") {
+			v.Reach("delivered") // the walk goes all the way through validation and put-away
+		}
 	}
 	v.Assert(v.FileIs(filepath.Join(root, "secret"), "v1"), "C14.O1 a file outside the configured directories is not modified or deleted")
 	v.Assert(v.FileIs(filepath.Join(root, "stage", "other", "x.part"), "v1"), "C14.O1 another source's staged file is not modified or deleted")
